@@ -301,15 +301,17 @@ func bufferModel(cs cleanerSpec) porcupine.Model {
 		Step: func(st, in, out interface{}) []interface{} {
 			s := st.(*bstate)
 			var res []interface{}
-			if n := bApply(s, in.(bIn), out.(bOut)); n != nil {
-				res = append(res, n)
-			}
-			if s2 := cs.clean(s); s2 != s {
-				if n := bApply(s2, in.(bIn), out.(bOut)); n != nil {
+			// the asynchronous cleaner may have made 0, 1, 2, ... passes before this step (up to its fixpoint)
+			for {
+				if n := bApply(s, in.(bIn), out.(bOut)); n != nil {
 					res = append(res, n)
 				}
+				s2 := cs.clean(s)
+				if s2 == s {
+					return res
+				}
+				s = s2
 			}
-			return res
 		},
 		Equal: func(a, b interface{}) bool { return bstateEqual(a.(*bstate), b.(*bstate)) },
 		DescribeOperation: func(in, out interface{}) string {
